@@ -29,6 +29,10 @@ var callID = map[string]int{
 	// 43 is a pseudo call emitted in front of `return ..., seg.ErrClosed`
 }
 
+// Write calls are events (30) only inside the buffered-writer plumbing of Persist / WriteTo
+var writeCounts bool
+var writeTargets = map[string]bool{"persistSegmentBaseToWriter": true, "bufWriter.Write": true}
+
 type skTarget struct {
 	name string // function or Type.method
 }
@@ -42,6 +46,7 @@ var skTargets = []string{
 	"Segment.AddRef", "Segment.DecRef", "Segment.Close", "ZapPlugin.Merge", "mergeStoredAndRemap",
 	"vectorIndexCache.loadFromCache", "vectorIndexCache.createAndCacheLOCKED",
 	"mergeToWriter", "mergeAndPersistInvertedSection", "mergeAndPersistSynonymSection",
+	"bufWriter.Write",
 }
 
 func calleeName(x ast.Expr) string {
@@ -70,7 +75,7 @@ func interesting(ce *ast.CallExpr) (int, bool) {
 			return 0, false
 		}
 	}
-	if name == "Write" {
+	if name == "Write" && !writeCounts {
 		return 0, false
 	}
 	if name == "freeReconstructedIndexes" {
@@ -337,6 +342,7 @@ func skel(repo string) {
 			die("skel: function %s not found", t)
 		}
 		c := &skCtx{}
+		writeCounts = writeTargets[t]
 		if fd.Type.Results != nil && len(fd.Type.Results.List) > 0 {
 			last := fd.Type.Results.List[len(fd.Type.Results.List)-1]
 			if id, ok := last.Type.(*ast.Ident); ok && id.Name == "error" {
